@@ -351,8 +351,9 @@ func (c *SpecCtx) ident(name string) *Val {
 	// function-local ghost
 	if srt, ok := X.ghostTypes[name]; ok {
 		gt := sortGoType(srt)
-		if T, ok := X.ghostGoTypes[name]; ok && srt == SInt {
-			if _, isPtr := T.Underlying().(*types.Pointer); isPtr {
+		if T, ok := X.ghostGoTypes[name]; ok {
+			switch T.Underlying().(type) {
+			case *types.Pointer, *types.Slice, *types.Interface:
 				gt = T
 			}
 		}
